@@ -432,3 +432,23 @@ Section P2StartKind.
         end
     end.
 End P2StartKind.
+
+(* ------------------------------------------------------------------ tucker(fixed_factors=req): the gate in front of the fixed-factor branch
+   since commit 1ad6e15:
+       if fixed_factors is not None: fixed_factors = list(fixed_factors)
+       if fixed_factors: <the fixed-factor branch>  else: <plain tucker>
+   request_truth is Python's truth value of a request AS PASSED: a list / tuple is true iff non-empty; an ndarray of one element has the
+   truth value of that element (array([0]) is false), an ndarray of two or more elements has none (ValueError), the empty ndarray is
+   false.  list(.) of any iterable is the list of its entries (as_list), so since 1ad6e15 the gate tests the length of the request. *)
+Inductive container := CList | CTuple | CArray.
+Definition request_truth (c : container) (l : list Z) : res bool :=
+  match c with
+  | CArray => match l with [] => Ok false | [z] => Ok (negb (Z.eqb z 0)) | _ => Err end
+  | _ => Ok (negb (Nat.eqb (length l) 0))
+  end.
+Definition as_list (c : container) : container := CList.
+Definition tucker_gate (c : container) (req : option (list Z)) : res bool :=
+  match req with None => Ok false | Some l => request_truth (as_list c) l end.
+(* the rule before 1ad6e15 (kept as a labelled foil): the truth value of the request as passed *)
+Definition tucker_gate_before_1ad6e15 (c : container) (req : option (list Z)) : res bool :=
+  match req with None => Ok false | Some l => request_truth c l end.
